@@ -219,7 +219,7 @@ class C12(Check):
             parties.append(QEditor(rs["edit%d" % k], cfg, b))
         parties.append(actors.Operator(rs["oper"], {"dirty_p": 0.0}))
         weights = {"analyst": 3.0, "importer": 0.8, "editor": 0.6, "operator": 0.1}
-        nsteps = r.choice([2, 4, 8, 15, 30])
+        nsteps = r.choice([2, 4, 8, 15, 30] + ([60, 120] if tier == "thorough" else []))
         steps += actors.schedule(rs["sched"], parties, weights, nsteps)
         return {"backend": backend, "steps": steps, "lat": lat}
 
